@@ -2,6 +2,7 @@ SPECIFICATION MCSpec
 CONSTANTS
   U = 2
   R = 4
+  MaxRestarts = 1
   MaxSteps = 7
 INVARIANTS ExactlyOnce Complete QuirkScope
 VIEW NoHist
